@@ -33,7 +33,7 @@ TNext ==
             /\ cnt' = ObsCnt(e)
             /\ bad' = IF ~OpOk(kids, e.ev, e.p, e.r, e.c)
                         THEN Append(bad, [l |-> l, t |-> e.t, why |-> "driver-illegal-call"])
-                      ELSE IF o \notin OpTo(kids, e.ev, e.p, e.r, e.c)
+                      ELSE IF ~(IF e.ev = "SortChildren" THEN SortAllows(kids, e.p, o) ELSE o \in OpTo(kids, e.ev, e.p, e.r, e.c))
                         THEN Append(bad, [l |-> l, t |-> e.t, why |-> "result-not-allowed"])
                       ELSE IF ObsCnt(e) # Counts(o)
                         THEN Append(bad, [l |-> l, t |-> e.t, why |-> "childcount"])
